@@ -12,7 +12,24 @@ resolves every step name with `error.namespaces` and must select exactly `error.
 document; for every single-node fault from the catalogue, applied at every node of every generated valid
 document, the document must be reported invalid, at least one error must be located at the damaged node or
 its parent, and no error outside the damaged node's ancestor chain and subtree.  ElementTree and lxml trees.
-Lazy resources: paths are explored and reported (no verdict).
+
+Fault localisation as a theorem (`single_fault_localised`, `observed_fault_localised`, Props/C19.lean): the
+validator is modelled as a compositional `Val` (Model/Localise.lean).  The run ties it to the code as follows:
+  * `validation_hook` (public API) records the declaration used for every element; the errors located at every
+    element are recorded; the first observation of a key defines a table row and every later observation is
+    compared with it: (H-own) own errors are a function of (declaration, tag, attributes, text, child names),
+    (H-gov) the declaration of a child is a function of (parent declaration, child name);
+  * for every damaged document the driver applies the model's `Fault.apply` to the *valid* document and runs the
+    model's `errs` with the table-driven validator `tableVal`: the damaged tree, the damaged position, and the
+    predicted errors (positions, order, kinds) must equal what the real validator did; (H-eff) `effectiveB` must
+    hold; `inZone`/`near` are compared with the harness evaluation;
+  * a schema family with a wildcard beside a same-named declaration shows where (H-gov) fails on the real code
+    (`gov_nonlocal_counterexample`, finding C19-F2): the witness is replayed literally.
+Lazy resources: `etree_getpath` is observed when a lazy error is created; the tree it sees is compared with the
+model's `lazyState` (cleared depth-level elements, elements not yet read absent), the path with `getPath` on that
+state, and what the path selects in the whole document with `selectAbs` (`lazy_path_contains`: always the element;
+`lazy_path_exact_partial`; `lazy_path_counterexample` replayed with a document larger than the read block).  No
+verdict for lazy resources (the property is about fully loaded documents).
 """
 from __future__ import annotations
 
@@ -25,18 +42,26 @@ from harness.core import Ctx, Driver
 PROPS = 'XsVerif.Props.C19'
 AUDIT = 'XsVerif.Audit.C19'
 LEAN_TARGETS = ['XsVerif.Props.C19', 'drv_c19']
-LEANCHECK = ['XsVerif.Model.Paths', 'XsVerif.Props.C19']
+LEANCHECK = ['XsVerif.Model.Paths', 'XsVerif.Model.Localise', 'XsVerif.Lemmas.Localise', 'XsVerif.Props.C19']
 RULE = ('a case is (valid document, fault kind, damaged node, parser); non-trivial = the validator reported at '
         'least one error whose element has a same-named sibling (a positional predicate is needed) or lies at '
         'depth >= 2; distinct by canonical JSON of (document, fault, node, parser)')
 TRUSTED = ['the XPath reading of a path (child steps, positional predicate among same-named siblings, names '
            'resolved with the error\'s namespace map, unprefixed names in the default namespace when one is bound) '
            'is the specification; it is implemented twice (Lean `select`, harness `xpath_select`)',
-           'lxml / ElementTree tree construction']
+           'lxml / ElementTree tree construction',
+           'the shape `Val` of the validator (own errors before/after the children, children validated recursively) and '
+           'its hypotheses H-own, H-gov, H-eff are modelling assumptions: checked on every run by the observation tables '
+           'and by comparing the predicted error list of every damaged document with iter_errors, not proved of the code',
+           'ElementTree.iterparse read-ahead (which elements exist when a lazy error is created) is observed, not modelled: '
+           'the model takes the number of started elements as a parameter']
 ASSUMPTIONS = ['documents declare their namespaces on the root element only (three layouts: prefixed, default, '
                'both; qualified and unqualified local elements)',
                'faults are generated so that they invalidate by construction (required items removed, undeclared '
-               'items added, order violated in a strictly ordered sequence, lexically invalid values for typed items)']
+               'items added, order violated in a strictly ordered sequence, lexically invalid values for typed items)',
+               'main schema family: no wildcards, no substitution groups, no identity constraints, no ID/IDREF, no '
+               'assertions, no xsi:type in instances (errors that depend on document-wide tables are outside `Val`); '
+               'the wildcard family exhibits the failure of H-gov (C19-F2)']
 
 TNS = 'urn:t'
 
@@ -49,12 +74,15 @@ def xsd(form: str) -> str:
    <xs:element name="item" type="t:Item" maxOccurs="unbounded"/>
    <xs:element name="note" type="xs:string" minOccurs="0" maxOccurs="3"/>
    <xs:element name="group" type="t:Group" minOccurs="0" maxOccurs="unbounded"/>
-  </xs:sequence><xs:attribute name="version" type="xs:int" use="required"/></xs:complexType></xs:element>
+   <xs:any namespace="##other" processContents="skip" minOccurs="0" maxOccurs="2"/>
+  </xs:sequence><xs:attribute name="version" type="xs:int" use="required"/>
+  <xs:anyAttribute namespace="##other" processContents="skip"/></xs:complexType></xs:element>
  <xs:complexType name="Head"><xs:sequence>
    <xs:element name="title" type="xs:string"/>
    <xs:element name="date" type="xs:date"/>
    <xs:element name="flag" type="xs:boolean" minOccurs="0"/>
-  </xs:sequence><xs:attribute name="lang" type="xs:language"/></xs:complexType>
+  </xs:sequence><xs:attribute name="lang" type="xs:language"/>
+  <xs:anyAttribute namespace="##local" processContents="lax"/></xs:complexType>
  <xs:complexType name="Item"><xs:sequence>
    <xs:element name="name" type="xs:NCName"/>
    <xs:element name="qty" type="xs:positiveInteger"/>
@@ -62,12 +90,49 @@ def xsd(form: str) -> str:
    <xs:choice minOccurs="0" maxOccurs="2"><xs:element name="a" type="xs:int"/><xs:element name="b" type="xs:token"/></xs:choice>
   </xs:sequence><xs:attribute name="id" type="xs:int" use="required"/>
   <xs:attribute name="kind"><xs:simpleType><xs:restriction base="xs:string"><xs:enumeration value="x"/><xs:enumeration value="y"/></xs:restriction></xs:simpleType></xs:attribute>
+  <xs:anyAttribute namespace="urn:x urn:y" processContents="strict"/>
  </xs:complexType>
  <xs:complexType name="Group"><xs:sequence>
    <xs:element name="item" type="t:Item" minOccurs="0" maxOccurs="unbounded"/>
    <xs:element name="group" type="t:Group" minOccurs="0" maxOccurs="unbounded"/>
-  </xs:sequence><xs:attribute name="label" type="xs:NCName" use="required"/></xs:complexType>
+   <xs:any namespace="##other" processContents="lax" minOccurs="0" maxOccurs="unbounded"/>
+  </xs:sequence><xs:attribute name="label" type="xs:NCName" use="required"/>
+  <xs:anyAttribute namespace="##targetNamespace" processContents="skip"/></xs:complexType>
 </xs:schema>'''
+
+
+XNS = 'urn:x'
+# attribute wildcards of the complex types above: (namespace constraint, processContents); the schema declares no
+# global attribute, so a name admitted by a strict wildcard is still invalid (no declaration), by lax / skip valid
+ATTR_WILDCARD = {'root': ('##other', 'skip'), 'head': ('##local', 'lax'), 'item': ('urn:x urn:y', 'strict'),
+                 'group': ('##targetNamespace', 'skip')}
+EXTRA_ATTRS = ['bogus', 't:bogus', 'x:bogus']        # no namespace, target namespace, another namespace
+
+
+def attr_ns(k: str) -> str:
+    return {'t': TNS, 'x': XNS}[k.split(':')[0]] if ':' in k else ''
+
+
+def expand_attr(k: str) -> str:
+    return '{%s}%s' % (attr_ns(k), k.split(':')[1]) if ':' in k else k
+
+
+def wildcard_admits(constraint: str, ns: str) -> bool:
+    """XSD 1.0 namespace constraint of a wildcard, read from the specification (independent of /repo)"""
+    if constraint == '##any':
+        return True
+    if constraint == '##other':
+        return ns != '' and ns != TNS
+    return any((tok == '##local' and ns == '') or (tok == '##targetNamespace' and ns == TNS) or tok == ns
+               for tok in constraint.split())
+
+
+def extra_attr_expected_invalid(elem_name: str, k: str) -> bool:
+    """an undeclared attribute `k` on an element of the family: is the document expected to be invalid?"""
+    if elem_name not in ATTR_WILDCARD:
+        return True                              # simple-typed elements: no attribute is allowed
+    constraint, pc = ATTR_WILDCARD[elem_name]
+    return not wildcard_admits(constraint, attr_ns(k)) or pc == 'strict'
 
 
 # typed leaves: (valid value, invalid value or None when every string is valid)
@@ -82,10 +147,25 @@ REQUIRED_CHILDREN = {'root': ['head'], 'head': ['title', 'date'], 'item': ['name
 _SCHEMAS: dict = {}
 
 
+WILD_XSD = '''<xs:schema xmlns:xs="http://www.w3.org/2001/XMLSchema">
+ <xs:element name="r"><xs:complexType><xs:sequence>
+   <xs:element name="a" type="xs:int"/>
+   <xs:any namespace="##any" processContents="skip" minOccurs="0" maxOccurs="unbounded"/>
+  </xs:sequence></xs:complexType></xs:element>
+</xs:schema>'''
+
+BIG_XSD = '''<xs:schema xmlns:xs="http://www.w3.org/2001/XMLSchema">
+ <xs:element name="r"><xs:complexType><xs:sequence>
+   <xs:element name="item" maxOccurs="unbounded"><xs:complexType><xs:sequence>
+     <xs:element name="q" type="xs:int" maxOccurs="unbounded"/></xs:sequence></xs:complexType></xs:element>
+  </xs:sequence></xs:complexType></xs:element>
+</xs:schema>'''
+
+
 def schema(form: str):
     if form not in _SCHEMAS:
         import xmlschema
-        _SCHEMAS[form] = xmlschema.XMLSchema(xsd(form))
+        _SCHEMAS[form] = xmlschema.XMLSchema({'wild': WILD_XSD, 'big': BIG_XSD}.get(form) or xsd(form))
     return _SCHEMAS[form]
 
 
@@ -108,7 +188,16 @@ def gen_group(rng, depth: int) -> dict:
     c = [gen_item(rng) for _ in range(rng.choice([0, 1, 1, 2, 3]))]
     if depth > 0:
         c += [gen_group(rng, depth - 1) for _ in range(rng.choice([0, 0, 1, 2]))]
-    return {'n': 'group', 'a': {'label': 'g'}, 't': None, 'c': c}
+    c += [ext(rng) for _ in range(rng.choice([0, 0, 0, 1, 2]))]
+    a = {'label': 'g'}
+    if rng.random() < 0.2:
+        a['t:extra'] = 'anything'                 # admitted by the ##targetNamespace / skip attribute wildcard
+    return {'n': 'group', 'a': a, 't': None, 'c': c}
+
+
+def ext(rng) -> dict:
+    """an element matched by an element wildcard (##other): not governed by a declaration, never a fault site"""
+    return {'n': 'x:ext', 'a': ({'any': '1'} if rng.random() < 0.5 else {}), 't': rng.choice(['', 'free text']), 'c': []}
 
 
 def gen_valid(rng, size: int) -> dict:
@@ -118,12 +207,18 @@ def gen_valid(rng, size: int) -> dict:
     c = [head] + [gen_item(rng) for _ in range(rng.choice([1, 2, 3][:size + 1]))]
     c += [{'n': 'note', 'a': {}, 't': 'text', 'c': []} for _ in range(rng.choice([0, 1, 2, 3]))]
     c += [gen_group(rng, rng.choice([0, 1, 2][:size + 1])) for _ in range(rng.choice([0, 1, 2][:size + 1]))]
-    return {'n': 'root', 'a': {'version': '1'}, 't': None, 'c': c}
+    c += [ext(rng) for _ in range(rng.choice([0, 0, 1, 2]))]
+    a = {'version': '1'}
+    if rng.random() < 0.3:
+        a['x:meta'] = 'm'                         # admitted by the ##other / skip attribute wildcard of the root
+    return {'n': 'root', 'a': a, 't': None, 'c': c}
 
 
 def to_xml(d: dict, layout: str, form: str, comments: bool = False) -> str:
     """layout: 'prefixed' | 'default' | 'both'"""
     def name(n: dict, is_root: bool) -> str:
+        if ':' in n['n']:
+            return n['n']
         if form == 'unqualified' and not is_root:
             return n['n']
         return 't:' + n['n'] if layout in ('prefixed', 'both') else n['n']
@@ -134,6 +229,7 @@ def to_xml(d: dict, layout: str, form: str, comments: bool = False) -> str:
         if depth == 1 and form == 'unqualified' and layout == 'default':
             attrs = ' xmlns=""' + attrs          # local elements are in no namespace
         if is_root:
+            attrs = f' xmlns:x="{XNS}"' + attrs
             if layout in ('prefixed', 'both'):
                 attrs = f' xmlns:t="{TNS}"' + attrs
             if layout in ('default', 'both'):
@@ -159,47 +255,64 @@ def at(d: dict, pos: tuple) -> dict:
     return d
 
 
-def faults_at(d: dict, pos: tuple, rng) -> list:
-    """single-node faults applicable at the node: (kind, mutated document, damaged position)"""
+def _attrs(a: dict) -> list:
+    return sorted([expand_attr(k), v] for k, v in a.items())
+
+
+def faults_at(d: dict, pos: tuple, rng, layout: str = 'prefixed') -> list:
+    """single-node faults applicable at the node: (kind, mutated document, damaged position, model fault).
+    The model fault is the `Fault` of lean/XsVerif/Model/Localise.lean that denotes the same damage ('BOGUS' stands
+    for the expanded name of the extra child, which depends on the layout of the document)."""
     n = at(d, pos)
     out = []
     nm = n['n']
+    if ':' in nm:
+        return out                                # matched by an element wildcard: not governed, not a fault site
     if nm in LEAF and LEAF[nm][1] is not None:
         m = clone(d)
         at(m, pos)['t'] = LEAF[nm][1]
-        out.append(('bad value', m, pos))
+        out.append(('bad value', m, pos, {'k': 'relabel', 'p': list(pos), 'a': _attrs(n['a']), 'x': LEAF[nm][1]}))
     for k in n['a']:
+        if k not in ATTR_BAD:
+            continue                              # an attribute admitted by a skip wildcard has no bad value
         m = clone(d)
         at(m, pos)['a'][k] = ATTR_BAD[k]
-        out.append(('bad attribute value', m, pos))
+        out.append(('bad attribute value', m, pos,
+                    {'k': 'relabel', 'p': list(pos), 'a': _attrs(at(m, pos)['a']), 'x': n['t'] or ''}))
     for k in REQUIRED_ATTR.get(nm, []):
         m = clone(d)
         del at(m, pos)['a'][k]
-        out.append(('missing attribute', m, pos))
-    m = clone(d)
-    at(m, pos)['a']['bogus'] = '1'
-    out.append(('extra attribute', m, pos))
+        out.append(('missing attribute', m, pos,
+                    {'k': 'relabel', 'p': list(pos), 'a': _attrs(at(m, pos)['a']), 'x': n['t'] or ''}))
+    for k in EXTRA_ATTRS:
+        if k.startswith('t:') and layout == 'default':
+            continue                              # no prefix for the target namespace in this layout
+        m = clone(d)
+        at(m, pos)['a'][k] = '1'
+        kind = 'extra attribute' if extra_attr_expected_invalid(nm, k) else 'admitted attribute'
+        out.append((kind, m, pos, {'k': 'relabel', 'p': list(pos), 'a': _attrs(at(m, pos)['a']), 'x': n['t'] or ''}))
     if nm in REQUIRED_CHILDREN:
         req = REQUIRED_CHILDREN[nm]
         i = rng.randrange(len(req))
         m = clone(d)
         del at(m, pos)['c'][i]
-        out.append(('missing child', m, pos))
+        out.append(('missing child', m, pos, {'k': 'remove', 'q': list(pos), 'i': i}))
         if len(req) >= 2:
             m = clone(d)
             c = at(m, pos)['c']
             c[0], c[1] = c[1], c[0]
-            out.append(('misplaced child', m, pos + (0,)))
+            out.append(('misplaced child', m, pos + (0,), {'k': 'move', 'q': list(pos), 'i': 1, 'j': 0}))
+    bogus = {'t': 'BOGUS', 'a': [], 'x': '', 'c': []}
     if nm not in LEAF:
         m = clone(d)
         c = at(m, pos)['c']
         i = rng.randrange(len(c) + 1)
         c.insert(i, {'n': 'bogus', 'a': {}, 't': None, 'c': []})
-        out.append(('extra child', m, pos + (i,)))
+        out.append(('extra child', m, pos + (i,), {'k': 'insert', 'q': list(pos), 'i': i, 'c': bogus}))
     else:
         m = clone(d)
         at(m, pos)['c'].append({'n': 'bogus', 'a': {}, 't': None, 'c': []})
-        out.append(('extra child', m, pos + (0,)))
+        out.append(('extra child', m, pos + (0,), {'k': 'insert', 'q': list(pos), 'i': 0, 'c': bogus}))
     return out
 
 
@@ -284,6 +397,14 @@ def known_match(case: dict, detail: dict) -> Optional[str]:
     if detail.get('kind') == 'path' and (detail.get('namespaces') or {}).get('') and detail.get('nons_step') \
             and not detail.get('selected'):
         return 'C19-F1'
+    # C19-F2: the content model of the damaged node's parent is broken by the fault, the schema family has a wildcard
+    # beside a same-named declaration, and every out-of-zone error lies at or below a *sibling* of the damaged node
+    # (the siblings are re-matched by name once the model is broken, groups.py:1013-1041).
+    if detail.get('kind') == 'zone' and case.get('form') == 'wild' and detail.get('children_error_at_parent'):
+        dm = tuple(detail['damaged'])
+        out = [tuple(p) for p in detail['located'] if not py_in_zone(dm, tuple(p))]
+        if dm and out and all(len(p) >= len(dm) and p[:len(dm) - 1] == dm[:-1] for p in out):
+            return 'C19-F2'
     return None
 
 
@@ -295,8 +416,115 @@ def load_local_findings() -> list:
     return [e for e in json.loads(p.read_text()).get('findings', []) if e.get('property') == 'C19']
 
 
+
+# ------------------------------------------------------------------------------------------------
+# Fault localisation: observation tables (hypotheses H-own, H-gov of Props/C19.lean) and the model's prediction
+CHILDREN_ERR = 'XMLSchemaChildrenValidationError'
+_NSNOISE = re.compile(r"\{urn:t\}|\bt:")
+
+
+def own_text(e) -> str:
+    """the element's own character data: its text and the tails of its children"""
+    return (e.text or '') + ''.join((c.tail or '') for c in e)
+
+
+def doc_of(e) -> dict:
+    return {'t': e.tag, 'a': sorted([k, v] for k, v in e.attrib.items()), 'x': own_text(e),
+            'c': [doc_of(c) for c in elem_children(e)]}
+
+
+def err_sig(e) -> str:
+    """what an error is, without what depends on the spelling of names (prefixes) or on comments"""
+    cls = type(e).__name__
+    if cls == CHILDREN_ERR:
+        eidx = sum(1 for c in list(e.elem)[:e.index] if not callable(c.tag)) if e.elem is not None else e.index
+        return f'{cls}|{eidx}|{e.occurs}|{e.invalid_tag}'
+    return cls + '|' + _NSNOISE.sub('', str(e.reason or ''))[:90]
+
+
+class Tables:
+    """first observation of a key defines the row; every later observation is compared with it"""
+
+    def __init__(self) -> None:
+        self.decl: dict = {}       # id(xsd element) -> small int
+        self.keep: list = []
+        self.own: dict = {}        # (d, tag, attrs, text, names) -> (pre sigs, post sigs)
+        self.gov: dict = {}        # (d, child tag) -> d' | None
+        self.own_checks = self.gov_checks = 0
+        self.own_conflicts: list = []
+        self.gov_conflicts: list = []
+
+    def decl_id(self, xsd) -> int:
+        k = id(xsd)
+        if k not in self.decl:
+            self.decl[k] = len(self.decl)
+            self.keep.append(xsd)
+        return self.decl[k]
+
+    def observe(self, root, used: dict, errors: list) -> Optional[dict]:
+        """used: id(element) -> declaration id (from validation_hook).  Returns what the model needs for this
+        document: root declaration, own rows and gov rows of the elements that were validated."""
+        by_elem: dict = {}
+        for e in errors:
+            by_elem.setdefault(id(e.elem), []).append(e)
+        if id(root) not in used:
+            return None
+        own_rows, gov_rows = [], []
+        stack = [root]
+        while stack:
+            el = stack.pop()
+            d = used[id(el)]
+            kids = elem_children(el)
+            names = [c.tag for c in kids]
+            es = by_elem.get(id(el), [])
+            seen = ([err_sig(x) for x in es if type(x).__name__ != CHILDREN_ERR],
+                    [err_sig(x) for x in es if type(x).__name__ == CHILDREN_ERR])
+            key = (d, el.tag, tuple(map(tuple, sorted(el.attrib.items()))), own_text(el), tuple(names))
+            if key in self.own:
+                self.own_checks += 1
+                if self.own[key] != seen:
+                    self.own_conflicts.append({'key': list(map(str, key)), 'first': self.own[key], 'now': seen})
+            else:
+                self.own[key] = seen
+            first = self.own[key]
+            own_rows.append({'d': d, 't': el.tag, 'a': [list(p) for p in key[2]], 'x': key[3], 'n': names,
+                             'pre': first[0], 'post': first[1]})
+            for c in kids:
+                g = used.get(id(c))
+                gk = (d, c.tag)
+                if gk in self.gov:
+                    self.gov_checks += 1
+                    if self.gov[gk] != g:
+                        self.gov_conflicts.append({'key': list(map(str, gk)), 'first': self.gov[gk], 'now': g})
+                else:
+                    self.gov[gk] = g
+                gov_rows.append({'d': d, 'n': c.tag, 'g': self.gov[gk]})
+                if g is not None:
+                    stack.append(c)
+        return {'d0': used[id(root)], 'own': own_rows, 'gov': gov_rows}
+
+
+def validate_observed(form_schema, source, tabs: Tables):
+    """iter_errors with the public validation_hook recording the declaration used for every element"""
+    used: dict = {}
+
+    def hook(elem, xsd_element):
+        used[id(elem)] = tabs.decl_id(xsd_element)
+        return False
+    errors = list(form_schema.iter_errors(source, validation_hook=hook))
+    return errors, used
+
+
+def py_in_zone(damaged: tuple, p: tuple) -> bool:
+    return p == damaged[:len(p)] or p[:len(damaged)] == damaged
+
+
+def py_near(damaged: tuple, p: tuple) -> bool:
+    return p == damaged or p == damaged[:-1]
+
 def run_case(ctx: Ctx, case: dict, xml: str, form: str, parser: str, damaged: Optional[tuple],
-             reqs: list, pend: list) -> None:
+             reqs: list, pend: list, tabs: Optional[Tables] = None, loc: Optional[dict] = None,
+             sch=None) -> Optional[dict]:
     import xmlschema
     if parser == 'lxml':
         import lxml.etree as LE
@@ -304,12 +532,22 @@ def run_case(ctx: Ctx, case: dict, xml: str, form: str, parser: str, damaged: Op
     else:
         source = xmlschema.XMLResource(xml)
     root = source.root
-    errors = list(schema(form).iter_errors(source))
+    sch = sch or schema(form)
+    obs = None
+    if tabs is not None:
+        errors, used = validate_observed(sch, source, tabs)
+    else:
+        errors = list(sch.iter_errors(source))
     ctx.count(f'errors per case:{min(len(errors), 4)}' + ('+' if len(errors) >= 4 else ''))
     if damaged is None:
         if errors:
             ctx.failure('generated valid document reported invalid', case, {'errors': [str(e.reason) for e in errors[:3]]})
-        return
+            return None
+        if tabs is not None:
+            obs = tabs.observe(root, used, errors)
+            if obs is not None:
+                obs['doc'] = doc_of(root)
+        return obs
     if not errors:
         ctx.failure('a document damaged at a single node is reported valid', case, {'damaged': list(damaged)})
         return
@@ -351,8 +589,15 @@ def run_case(ctx: Ctx, case: dict, xml: str, form: str, parser: str, damaged: Op
     ok_zone = all(p in anc or p[:len(damaged)] == damaged for p in located)
     near = any(p == damaged or p == damaged[:-1] for p in located)
     if not ok_zone:
-        ctx.failure('an error is located outside the damaged node\'s ancestor chain and subtree', case,
-                    {'damaged': list(damaged), 'located': [list(p) for p in located]})
+        detail = {'kind': 'zone', 'damaged': list(damaged), 'located': [list(p) for p in located],
+                  'children_error_at_parent': any(type(e).__name__ == CHILDREN_ERR and
+                                                  position_of(root, e.elem) == damaged[:-1] for e in errors)}
+        fid = known_match(case, detail)
+        if fid:
+            ctx.known_hit(fid)
+            ctx.count('known:' + fid)
+        else:
+            ctx.failure('an error is located outside the damaged node\'s ancestor chain and subtree', case, detail)
     elif not near:
         ctx.failure('no error is located at the damaged node or its parent', case,
                     {'damaged': list(damaged), 'located': [list(p) for p in located]})
@@ -361,6 +606,82 @@ def run_case(ctx: Ctx, case: dict, xml: str, form: str, parser: str, damaged: Op
     ns0 = positions[0][2]
     reqs.append({'tree': rendered_tree(root, ns0), 'pos': [p for p, _, _ in positions]})
     pend.append((case, positions))
+    # fault-localisation model: the table-driven validator's prediction for `Fault.apply fault valid_doc`
+    if tabs is not None and loc is not None and loc.get('valid') is not None:
+        obs = tabs.observe(root, used, errors)
+        if obs is not None:
+            loc['rows'].update(json.dumps(r, sort_keys=True) for r in obs['own'])
+            loc['govs'].update(json.dumps(r, sort_keys=True) for r in obs['gov'])
+            loc['faults'].append(loc['fault'])
+            loc['pend'].append((case, doc_of(root), list(damaged),
+                                [(list(position_of(root, e.elem)), err_sig(e)) for e in errors]))
+    return None
+
+
+def new_loc(valid: Optional[dict]) -> dict:
+    loc = {'valid': valid, 'faults': [], 'pend': [], 'rows': set(), 'govs': set()}
+    if valid is not None:
+        loc['rows'].update(json.dumps(r, sort_keys=True) for r in valid['own'])
+        loc['govs'].update(json.dumps(r, sort_keys=True) for r in valid['gov'])
+    return loc
+
+
+def loc_request(loc: dict) -> Optional[dict]:
+    if loc['valid'] is None or not loc['faults']:
+        return None
+    # a key observed with two different values would make the table ambiguous: H-own / H-gov conflicts are
+    # reported by Tables; here the first observation wins (rows are sorted, the driver takes the first match)
+    return {'op': 'localise', 'doc': loc['valid']['doc'], 'd0': loc['valid']['d0'], 'faults': loc['faults'],
+            'own': [json.loads(r) for r in sorted(loc['rows'])], 'gov': [json.loads(r) for r in sorted(loc['govs'])]}
+
+
+def compare_localise(ctx: Ctx, drv: Driver, locs: list, expect_local: bool = True) -> None:
+    """model: errs (tableVal own gov) d0 (Fault.apply fault valid_doc)  vs  real: iter_errors of the damaged XML"""
+    live = [(l, loc_request(l)) for l in locs]
+    live = [(l, r) for l, r in live if r is not None]
+    for (l, _), m in zip(live, drv.query([r for _, r in live])):
+        if 'err' in m:
+            ctx.mismatch('driver error (localise)', l['pend'][0][0] if l['pend'] else None, None, m)
+            continue
+        if not m['valid0']:
+            if not expect_local:
+                # the family where (H-gov) fails: no name-local Val reproduces the validator on the valid document
+                ctx.count('non-local family: the name-local tables reject the valid document', len(l['pend']))
+                ctx.traces += len(l['pend'])
+                continue
+            ctx.mismatch('the observation tables do not accept the valid document', l['pend'][0][0], True, False)
+        for (case, real_doc, damaged, real_errs), r in zip(l['pend'], m['r']):
+            ctx.traces += 1
+            ctx.count('localise comparisons')
+            if r['mut'] != real_doc:
+                ctx.mismatch('Fault.apply vs the damaged document that was validated', case, real_doc, r['mut'])
+                continue
+            if r['damaged'] != damaged:
+                ctx.mismatch('Fault.damaged vs the damaged node of the catalogue', case, damaged, r['damaged'])
+                continue
+            model_errs = [(e['pos'], e['sig']) for e in r['errs']]
+            if model_errs != real_errs:
+                if expect_local:
+                    ctx.mismatch('errors predicted by the table-driven Val vs iter_errors (positions, order, kinds)',
+                                 case, real_errs, model_errs)
+                else:
+                    ctx.count('non-local family: prediction by a name-local Val differs from iter_errors')
+                continue
+            if not r['effective']:
+                if expect_local:
+                    ctx.mismatch('H-eff: the fault is not effective for the observed validator', case, True, False)
+                else:
+                    ctx.count('non-local family: fault not effective at its site (the error is at the moved child)')
+                continue
+            ctx.count('localise: hypotheses hold and prediction equals iter_errors')
+            dm = tuple(damaged)
+            for e in r['errs']:
+                if e['zone'] != py_in_zone(dm, tuple(e['pos'])) or e['near'] != py_near(dm, tuple(e['pos'])):
+                    ctx.mismatch('inZone/near (Lean) vs the harness evaluation', case,
+                                 [py_in_zone(dm, tuple(e['pos'])), py_near(dm, tuple(e['pos']))], [e['zone'], e['near']])
+            # the instance of observed_fault_localised
+            if not (r['errs'] and any(e['near'] for e in r['errs']) and all(e['zone'] for e in r['errs'])):
+                ctx.mismatch('observed_fault_localised instance', case, None, r['errs'])
 
 
 def at_elem(root, pos: tuple):
@@ -383,7 +704,7 @@ def compare(ctx: Ctx, drv: Driver, reqs: list, pend: list) -> None:
                 ctx.mismatch('model select of the path', case, [pos], r['sel'])
 
 
-def explore(ctx: Ctx, drv: Optional[Driver]) -> None:
+def explore(ctx: Ctx, drv: Optional[Driver], tabs: Optional[Tables] = None) -> None:
     rng = ctx.rng
     n_docs = ctx.pick(70, 700)
     reqs: list = []
@@ -395,23 +716,41 @@ def explore(ctx: Ctx, drv: Optional[Driver]) -> None:
         form = 'qualified' if di % 3 else 'unqualified'
         layout = layouts[di % 3] if form == 'qualified' else ('default' if di % 2 else 'prefixed')
         comments = rng.random() < 0.3
+        if layout == 'default':                    # no prefix for attributes in the target namespace
+            for _p, n in nodes(doc):
+                n['a'] = {k: v for k, v in n['a'].items() if not k.startswith('t:')}
         nn = list(nodes(doc))
         ctx.count(f'document nodes:{len(nn) // 10 * 10}+')
         base = {'doc': di, 'form': form, 'layout': layout, 'comments': comments}
+        locs = {}
         for parser in ('etree', 'lxml'):
-            run_case(ctx, dict(base, fault=None, parser=parser, xml=to_xml(doc, layout, form, comments)),
-                     to_xml(doc, layout, form, comments), form, parser, None, reqs, pend)
+            vobs = run_case(ctx, dict(base, fault=None, parser=parser, xml=to_xml(doc, layout, form, comments)),
+                            to_xml(doc, layout, form, comments), form, parser, None, reqs, pend, tabs=tabs)
+            locs[parser] = new_loc(vobs)
+        bogus_tag = ('{%s}bogus' % TNS) if form == 'qualified' else 'bogus'
         exhaustive = len(nn) <= 40
         chosen = nn if exhaustive else rng.sample(nn, 40)
         for pos, _ in chosen:
-            for kind, mutated, damaged in faults_at(doc, pos, rng):
+            for kind, mutated, damaged, mfault in faults_at(doc, pos, rng, layout):
                 xml = to_xml(mutated, layout, form, comments)
+                if kind == 'admitted attribute':
+                    # the extra attribute is admitted by the element's skip/lax attribute wildcard (oracle
+                    # `wildcard_admits`, read from the specification): not a fault, the document must stay valid
+                    for parser in ('etree', 'lxml'):
+                        case = dict(base, fault=None, admitted=True, node=list(pos), parser=parser, xml=xml)
+                        ctx.case(case, False, tag=f'admitted attribute (still valid)/{parser}')
+                        run_case(ctx, case, xml, form, parser, None, reqs, pend, tabs=tabs)
+                    continue
                 for parser in ('etree', 'lxml'):
                     case = dict(base, fault=kind, node=list(pos), damaged=list(damaged), parser=parser, xml=xml)
+                    locs[parser]['fault'] = json.loads(json.dumps(mfault).replace('BOGUS', bogus_tag))
                     try:
-                        run_case(ctx, case, xml, form, parser, tuple(damaged), reqs, pend)
+                        run_case(ctx, case, xml, form, parser, tuple(damaged), reqs, pend, tabs=tabs,
+                                 loc=locs[parser])
                     except Exception as e:  # noqa
                         ctx.failure('validation raised', case, {'exception': repr(e)[:300]})
+        if drv is not None and tabs is not None:
+            compare_localise(ctx, drv, list(locs.values()))
         if ctx.time_left() < 120:
             ctx.notes.append('exploration stopped early (time budget)')
             break
@@ -419,32 +758,211 @@ def explore(ctx: Ctx, drv: Optional[Driver]) -> None:
         compare(ctx, drv, reqs, pend)
 
 
-def lazy_report(ctx: Ctx) -> None:
-    """lazy resources: paths of pruned trees, explored and reported only"""
-    import xmlschema
+# ------------------------------------------------------------------------------------------------
+# the wildcard family: where (H-gov) is false on the real code (gov_nonlocal_counterexample, finding C19-F2)
+def wild_xml(kids: list) -> str:
+    return '<r>' + ''.join(f'<{n}>{t}</{n}>' if t else f'<{n}/>' for n, t in kids) + '</r>'
+
+
+def wild_family(ctx: Ctx, drv: Optional[Driver]) -> None:
     rng = ctx.rng
-    same = diff = 0
-    examples = []
-    for _ in range(ctx.pick(12, 60)):
+    tabs = Tables()
+    reqs: list = []
+    pend: list = []
+    locs = []
+    # 0. the witness of gov_nonlocal_counterexample, literally
+    docs = [[('a', '1'), ('a', 'foo')]]
+    for _ in range(ctx.pick(25, 250)):
+        docs.append([('a', str(rng.randrange(9)))] +
+                    [rng.choice([('a', 'foo'), ('a', '5'), ('z', ''), ('b', 'x')]) for _ in range(rng.randrange(4))])
+    for di, kids in enumerate(docs):
+        base = {'doc': f'wild{di}', 'form': 'wild', 'layout': 'none', 'comments': False, 'parser': 'etree'}
+        vx = wild_xml(kids)
+        vobs = run_case(ctx, dict(base, fault=None, xml=vx), vx, 'wild', 'etree', None, reqs, pend, tabs=tabs)
+        loc = new_loc(vobs)
+        locs.append(loc)
+        faults = []
+        for i in range(len(kids) + 1):
+            faults.append(('extra child', kids[:i] + [('zzz', '')] + kids[i:], (i,),
+                           {'k': 'insert', 'q': [], 'i': i, 'c': {'t': 'zzz', 'a': [], 'x': '', 'c': []}}))
+        # (no "missing child" here: removing the first `a` of `a a` is the same document as a bad value of `a`)
+        if len(kids) >= 2:
+            j = rng.randrange(1, len(kids))
+            rest = kids[:j] + kids[j + 1:]
+            faults.append(('misplaced child', [kids[j]] + rest, (0,), {'k': 'move', 'q': [], 'i': j, 'j': 0}))
+        for kind, mk, damaged, mfault in faults:
+            mx = wild_xml(mk)
+            if not list(schema('wild').iter_errors(mx)):
+                ctx.count('wild: fault accepted by the wildcard (not a fault for this schema)')
+                continue
+            case = dict(base, fault=kind, node=[], damaged=list(damaged), xml=mx)
+            loc['fault'] = mfault
+            run_case(ctx, case, mx, 'wild', 'etree', damaged, reqs, pend, tabs=tabs, loc=loc)
+    # the witness of gov_nonlocal_counterexample on the real code: located errors [2] then []
+    import xmlschema
+    res = xmlschema.XMLResource('<r><zzz/><a>1</a><a>foo</a></r>')
+    got = [list(position_of(res.root, e.elem)) for e in schema('wild').iter_errors(res)]
+    ctx.traces += 1
+    ctx.extra['gov_nonlocal_counterexample'] = {'lean': [[2], []], 'real': got, 'reproduced': got == [[2], []],
+                                                'H-gov conflicts observed': len(tabs.gov_conflicts)}
+    if got != [[2], []]:
+        ctx.notes.append('gov_nonlocal_counterexample: the witness no longer reproduces on the real code '
+                         '(finding C19-F2 may be fixed): ' + json.dumps(got))
+    if drv is not None:
+        compare(ctx, drv, reqs, pend)
+        compare_localise(ctx, drv, locs, expect_local=False)
+
+
+# ------------------------------------------------------------------------------------------------
+# lazy resources: the tree on which error.path is computed (lazyState), what the path selects in the document
+def count_nodes(t: dict) -> int:
+    return 1 + sum(count_nodes(c) for c in t['c'])
+
+
+def depth_positions(t: dict, k: int, pos: tuple = ()) -> list:
+    if k == 0:
+        return [pos]
+    out = []
+    for i, c in enumerate(t['c']):
+        out += depth_positions(c, k - 1, pos + (i,))
+    return out
+
+
+def big_xml(items: int, per: int, bad: set) -> str:
+    return '<r>' + ''.join('<item>' + ''.join('<q>%s</q>' % ('bad' if (i, j) in bad else '1') for j in range(per))
+                           + '</item>' for i in range(items)) + '</r>'
+
+
+def lazy_paths(ctx: Ctx, drv: Optional[Driver]) -> None:
+    import xmlschema
+    from xml.etree import ElementTree as ET
+    from xmlschema.validators import exceptions as exc_mod
+    rng = ctx.rng
+    orig = exc_mod.etree_getpath
+    cur: dict = {}
+    records: list = []
+
+    def spy(elem, root, namespaces=None, relative=True, add_position=False, parent_path=False):
+        path = orig(elem, root, namespaces, relative, add_position, parent_path)
+        res = cur.get('res')
+        if res is not None and root is res.root:
+            records.append({'snap': rendered_tree(root, dict(namespaces or {})), 'pos': position_of(root, elem),
+                            'path': path, 'ns': dict(namespaces or {})})
+        return path
+
+    jobs = []
+    for _ in range(ctx.pick(24, 150)):
         doc = gen_valid(rng, 1)
-        nn = list(nodes(doc))
-        pos, _ = rng.choice(nn)
-        fl = faults_at(doc, pos, rng)
-        kind, mutated, damaged = rng.choice(fl)
-        xml = to_xml(mutated, 'prefixed', 'qualified')
-        full = sorted(str(e.path) for e in schema('qualified').iter_errors(xmlschema.XMLResource(xml)))
-        try:
-            lazy = sorted(str(e.path) for e in schema('qualified').iter_errors(xmlschema.XMLResource(xml, lazy=True)))
-        except Exception as e:  # noqa
-            lazy = ['raised ' + type(e).__name__]
-        if full == lazy:
-            same += 1
-        else:
-            diff += 1
-            if len(examples) < 3:
-                examples.append({'fault': kind, 'full': full[:3], 'lazy': lazy[:3]})
-    ctx.extra['lazy_paths'] = {'same_as_full': same, 'different': diff, 'examples': examples,
-                               'note': 'reported only; lazy resources prune the tree, positions may differ'}
+        fl: list = []
+        while not fl:
+            pos, _n = rng.choice(list(nodes(doc)))
+            fl = [f for f in faults_at(doc, pos, rng) if f[0] != 'admitted attribute']
+        kind, mutated, damaged, _mf = rng.choice(fl)
+        jobs.append(('qualified', to_xml(mutated, 'prefixed', 'qualified'), rng.choice([1, 1, 2, 3]), kind))
+    # documents larger than the parser's read block: later siblings do not exist yet when the error is created
+    jobs.append(('big', big_xml(3, 3000, {(0, 1), (2, 0)}), 2, 'bad value'))     # witness of lazy_path_counterexample
+    for _ in range(ctx.pick(3, 12)):
+        items, per = rng.choice([(3, 2500), (6, 900), (40, 120), (2, 4000)])
+        bad = {(rng.randrange(items), rng.randrange(per)) for _ in range(2)}
+        jobs.append(('big', big_xml(items, per, bad), rng.choice([1, 2]), 'bad value'))
+    same = diff = ambiguous = 0
+    reqs, pend = [], []
+    exc_mod.etree_getpath = spy
+    try:
+        for form, xml, k, kind in jobs:
+            case = {'lazy': k, 'form': form, 'fault': kind, 'xml': xml if len(xml) < 4000 else f'<{len(xml)} bytes>'}
+            full_res = xmlschema.XMLResource(xml)
+            full_errors = list(schema(form).iter_errors(full_res))
+            full_paths = sorted(str(e.path) for e in full_errors)
+            full_pos = [position_of(full_res.root, e.elem) for e in full_errors]
+            del records[:]
+            cur['res'] = res = xmlschema.XMLResource(xml, lazy=k)
+            try:
+                lazy_paths_ = sorted(str(e.path) for e in schema(form).iter_errors(res))
+            except Exception as e:  # noqa
+                cur['res'] = None
+                ctx.count('lazy: iter_errors raised ' + type(e).__name__)
+                continue
+            cur['res'] = None
+            if lazy_paths_ == full_paths:
+                same += 1
+            else:
+                diff += 1
+            # which element a lazy error is about: the elements of the errors of the eager run; error.path of the lazy
+            # run must be the path computed (on the lazy state) for exactly those elements
+            first: dict = {}
+            for r in records:
+                first.setdefault(r['pos'], r['path'])
+            expected = sorted(str(first.get(p)) for p in full_pos)
+            ctx.traces += 1
+            if expected != lazy_paths_:
+                ctx.mismatch('lazy error.path vs the path computed at creation for the element the error is about',
+                             case, lazy_paths_, expected)
+            full_root = ET.fromstring(xml)
+            for r in records:
+                if r['pos'] is None:
+                    ctx.mismatch('lazy: error element is not in the tree of the resource', case, None, None)
+                    continue
+                full_t = rendered_tree(full_root, r['ns'])
+                pos = tuple(r['pos'])
+                dpos = depth_positions(full_t, k)
+                done = dpos.index(pos[:k]) if len(pos) >= k and pos[:k] in dpos else len(dpos)
+                sel_py = xpath_select(full_root, r['path'], r['ns'])
+                sel_py = None if sel_py is None else [list(position_of(full_root, x)) for x in sel_py]
+                eager = orig(at_elem(full_root, pos), full_root, r['ns'], False, True) \
+                    if at_elem_opt(full_root, pos) is not None else None
+                ctx.case(dict(case, pos=list(pos)), len(pos) >= 2, tag=f'lazy depth {k}')
+                reqs.append({'op': 'lazy', 'tree': full_t, 'k': k, 'done': done, 'n': count_nodes(r['snap']),
+                             'pos': list(pos)})
+                pend.append((case, r, sel_py, eager))
+                if sel_py is not None and len(sel_py) > 1:
+                    ambiguous += 1
+                    ctx.count('lazy: the path selects several elements of the document')
+                elif sel_py == [list(pos)]:
+                    ctx.count('lazy: the path selects exactly the element')
+                else:
+                    ctx.count('lazy: the path does not select the element')
+    finally:
+        exc_mod.etree_getpath = orig
+    if drv is not None:
+        for (case, r, sel_py, eager), m in zip(pend, drv.query(reqs)):
+            ctx.traces += 1
+            if 'err' in m:
+                ctx.mismatch('driver error (lazy)', case, None, m)
+            elif m.get('state') != r['snap']:
+                ctx.mismatch('lazyState vs the tree of the lazy resource when the error was created', case,
+                             {'nodes': count_nodes(r['snap'])}, {'nodes': count_nodes(m['state']) if m.get('state') else None})
+            elif m.get('path') != r['path']:
+                ctx.mismatch('getPath on the lazy state vs error.path', case, r['path'], m.get('path'))
+            elif m.get('sel') != sel_py:
+                ctx.mismatch('selectAbs on the document vs the harness evaluator (lazy path)', case, sel_py, m.get('sel'))
+            elif list(r['pos']) not in m['sel']:
+                ctx.mismatch('lazy_path_contains instance', case, list(r['pos']), m['sel'])
+            elif m.get('complete') and (r['path'] != eager or m['sel'] != [list(r['pos'])]):
+                ctx.mismatch('lazy_path_exact_partial instance', case, eager, r['path'])
+            else:
+                ctx.count('lazy: guard completeAlong ' + ('holds' if m.get('complete') else 'fails'))
+    ctx.extra['lazy_paths'] = {
+        'runs with the same error paths as full loading': same, 'runs with different paths': diff,
+        'error paths that select several elements of the document': ambiguous,
+        'note': 'no verdict (the property is about fully loaded documents); proved: the path always selects the '
+                'element (lazy_path_contains), exactly when no sibling on the way is missing (lazy_path_exact_partial); '
+                'lazy_path_counterexample is replayed with a document larger than the read block'}
+    big = [(c, r, sp) for (c, r, sp, _e) in pend if c['form'] == 'big' and sp is not None and len(sp) > 1]
+    ctx.extra['lazy_path_counterexample'] = {'reproduced': bool(big),
+                                             'example': {'path': big[0][1]['path'], 'selects': len(big[0][2])} if big else None}
+    if not big:
+        ctx.notes.append('lazy_path_counterexample: no ambiguous lazy path was observed on the real code')
+
+
+def at_elem_opt(root, pos: tuple):
+    e = root
+    for i in pos:
+        ch = elem_children(e)
+        if i >= len(ch):
+            return None
+        e = ch[i]
+    return e
 
 
 def renders(ctx: Ctx, drv: Optional[Driver]) -> None:
@@ -481,10 +999,28 @@ def renders(ctx: Ctx, drv: Optional[Driver]) -> None:
 
 def run(ctx: Ctx, driver_ok: bool) -> None:
     drv = Driver('drv_c19') if driver_ok else None
-    ctx.known = ctx.known + load_local_findings()
-    explore(ctx, drv)
+    ctx.known = ctx.known + [e for e in load_local_findings() if e['id'] not in {k['id'] for k in ctx.known}]
+    tabs = Tables()
+    explore(ctx, drv, tabs)
+    # hypotheses of single_fault_localised on the real code (main schema family: no wildcards, no identity
+    # constraints): own errors are a function of (declaration, tag, attributes, text, child names); the declaration
+    # of a child is a function of (declaration of the parent, child name)
+    ctx.traces += tabs.own_checks + tabs.gov_checks
+    ctx.count('H-own observations compared', tabs.own_checks)
+    ctx.count('H-gov observations compared', tabs.gov_checks)
+    for c in tabs.own_conflicts[:3]:
+        ctx.mismatch('H-own: own errors are not a function of (declaration, tag, attributes, text, child names)',
+                     c['key'], c['now'], c['first'])
+    for c in tabs.gov_conflicts[:3]:
+        ctx.mismatch('H-gov (GovLocal): the declaration of a child is not a function of (parent declaration, name)',
+                     c['key'], c['now'], c['first'])
+    ctx.extra['hypotheses'] = {'H-own rows': len(tabs.own), 'H-own comparisons': tabs.own_checks,
+                               'H-own conflicts': len(tabs.own_conflicts), 'H-gov rows': len(tabs.gov),
+                               'H-gov comparisons': tabs.gov_checks, 'H-gov conflicts': len(tabs.gov_conflicts),
+                               'declarations': len(tabs.decl)}
+    wild_family(ctx, drv)
     renders(ctx, drv)
-    lazy_report(ctx)
+    lazy_paths(ctx, drv)
     ctx.extra['explanation'] = ('every fault of the catalogue at every node (documents <= 40 nodes exhaustively, 40 seeded '
                                 'nodes beyond), ElementTree and lxml')
 
@@ -494,7 +1030,7 @@ def search(ctx: Ctx) -> None:
         saved = ctx.tier
         ctx.tier = 'thorough'
         try:
-            explore(ctx, None)
+            explore(ctx, None, Tables())
         finally:
             ctx.tier = saved
 
@@ -502,8 +1038,9 @@ def search(ctx: Ctx) -> None:
 def replay(ctx: Ctx, obj: dict) -> int:
     print(json.dumps(obj, indent=1, default=str)[:5000])
     case = obj.get('input')
-    if not case or 'xml' not in case:
+    if not case or 'xml' not in case or 'lazy' in case:
         return 0
+    ctx.known = ctx.known + [e for e in load_local_findings() if e['id'] not in {k['id'] for k in ctx.known}]
     reqs: list = []
     pend: list = []
     dmg = tuple(case['damaged']) if case.get('damaged') is not None else None
